@@ -81,6 +81,25 @@ def planted_input(rng: random.Random):
             xs.append(xs[-1] + 2500 + int(rng.expovariate(1 / 9000.)))
         n = len(xs)
         dup = (a0, wa, b0)
+    pal = None
+    if dense is None and dup is None and not near_start and rng.random() < 0.3:
+        # a nearly palindromic region (gaps g1..gm followed by gm..g1, each changed by a few hundred bp): a molecule cut
+        # symmetrically around its centre correlates on BOTH strands at the same seed position, the true strand a little
+        # better - two selected seeds that differ in nothing but the strand
+        m = rng.randint(8, 20)
+        gaps = [3000 + int(rng.expovariate(1 / 8000.)) for _ in range(m)]
+        back = [g + rng.choice([-1, 1]) * rng.randint(150, 700) for g in reversed(gaps)]
+        head = [rng.randint(5000, 30000)]
+        for _ in range(rng.randint(8, 40)):
+            head.append(head[-1] + 2500 + int(rng.expovariate(1 / 9000.)))
+        a0 = len(head)
+        xs = head + [head[-1] + rng.randint(4000, 20000)]
+        for g in gaps + back:
+            xs.append(xs[-1] + g)
+        for _ in range(rng.randint(8, 60)):
+            xs.append(xs[-1] + 2500 + int(rng.expovariate(1 / 9000.)))
+        n = len(xs)
+        pal = (a0, 2 * m + 1)
     while (xs[-1] - xs[0]) / (n - 1) < 9000:      # stretch the tail only, keeping every gap >= 2 kb
         xs = xs[:10] + [xs[9] + int((v - xs[9]) * 1.15) for v in xs[10:]]
     dx = pipecases.deci(xs, rng if rng.random() < 0.5 else None)
@@ -94,6 +113,10 @@ def planted_input(rng: random.Random):
         w0 = rng.choice([4, 4, 5, n - w - 4, rng.randint(4, n - w - 4), rng.randint(4, n - w - 4)])
         if dense:
             w0 = max(4, min(n - w - 4, rng.randint(dense[0] - 8, dense[1] - 10)))
+        if pal and len(qrys) < 5:       # windows symmetric about the centre of the palindromic region
+            k = rng.choice([0, 0, 1, 2, 3])
+            if pal[1] - 2 * k >= 15:
+                w0, w = pal[0] + k, pal[1] - 2 * k
         if dup and len(qrys) < 6:       # the duplicated region (from its first label / a few labels in), or its copy
             k = rng.choice([0, 0, 0, 1, 2, 3])
             w0 = (dup[0] if len(qrys) % 3 != 2 else dup[2]) + k
@@ -117,7 +140,7 @@ def planted_input(rng: random.Random):
     if rng.random() < 0.5:
         # company in the query file: a molecule of two adjacent reference regions with 20-60 kb inserted between them
         # (its two passes are joined), and a planted query that carries the reference's own id
-        w1 = rng.randint(12, 20)
+        w1 = min(rng.randint(12, 20), (n - 12) // 2)
         a0 = rng.randint(4, n - 2 * w1 - 6)
         ins = rng.randint(20000, 60000) * 10
         part = [dx[i] - dx[a0] for i in range(a0, a0 + 2 * w1)]
